@@ -43,7 +43,39 @@ def run_sib(rec, variant):
         for v in values:
             sib.fill(v)
         out = list(sib.compute())
-    return out, av, edges, dim
+    return out, av, edges, dim, values
+
+
+def ctx_dict(c):
+    """Harness context for a specification record [src, mut]."""
+    d = {}
+    if c["src"]:
+        d["src"] = c["src"]
+    if c["mut"]:
+        d["mut"] = c["mut"]
+    return d
+
+
+def check_contexts(rec, out, av, values, worst, size, where):
+    """The histograms carry the last inside value's context as it arrived + variable of the argument
+    variable; the flow values' own contexts hold nothing SplitIntoBins wrote."""
+    base = {"scenario": bl.scen_text(rec), "where": where}
+    ok = True
+    want = dict(ctx_dict(rec["hctx"]), variable=av.var_context)
+    for k, (hist, context) in enumerate(out):
+        if context != want:
+            ok = False
+            kind = ("context.variable does not describe the argument variable"
+                    if context.get("variable") != av.var_context else
+                    "histogram context is not the last filled value's context + variable")
+            worst.add(kind, size, dict(base, histogram=k, expected=repr(want), observed=repr(context)))
+    for i, (v, c) in enumerate(zip(values, rec["vctx"])):
+        got = v[1] if (isinstance(v, tuple) and len(v) == 2 and isinstance(v[1], dict)) else {}
+        if got != ctx_dict(c):
+            ok = False
+            worst.add("SplitIntoBins changes the context of a flow value", size,
+                      dict(base, position=i + 1, expected=repr(ctx_dict(c)), observed=repr(got)))
+    return ok
 
 
 def check_hists(rec, out, av, edges, dim, worst, size, where):
@@ -73,10 +105,6 @@ def check_hists(rec, out, av, edges, dim, worst, size, where):
             ids_got = bl.md_map(lambda r: r["ids"], got, dim)
             kind = "a cell holds other values" if (ids_exp != ids_got and rec["kind"] != "shift") else "cell results differ"
             worst.add(kind, size, dict(base, histogram=k, expected=exp[k], observed=got))
-        if context.get("variable") != av.var_context:
-            ok = False
-            worst.add("context.variable does not describe the argument variable", size,
-                      dict(base, expected=repr(av.var_context), observed=repr(context.get("variable"))))
     return ok
 
 
@@ -169,12 +197,13 @@ def replay(ctx, rec, n, worst):
     size = (len(rec["flow"]), len(core.canon(rec["edges"])), core.canon([rec["edges"], rec["flow"], rec["kind"]]))
     for variant in ((n % 2, 2 + n % 2) if n % 5 == 0 else (n % 2,)):
         try:
-            out, av, edges, dim = run_sib(rec, variant)
+            out, av, edges, dim, values = run_sib(rec, variant)
         except Exception as exc:   # noqa
             worst.add("raised %s" % type(exc).__name__, size, {"scenario": bl.scen_text(rec), "exception": repr(exc),
                                                               "where": "run" if variant >= 2 else "fill/compute"})
             continue
         ok = check_hists(rec, out, av, edges, dim, worst, size, "run" if variant >= 2 else "fill/compute")
+        ok = check_contexts(rec, out, av, values, worst, size, "run" if variant >= 2 else "fill/compute") and ok
         if ok and variant < 2:
             check_iter(rec, out, edges, dim, worst, size, variant)
             if n % 3 == 0 or len(rec["flow"]) <= 1:
@@ -183,18 +212,33 @@ def replay(ctx, rec, n, worst):
 
 
 # ------------------------------------------------------------------ second oracle: real analyses
+def tag_inner(value):
+    """An inner element that writes into the context of the value in place."""
+    import lena.flow
+    data, context = lena.flow.get_data_context(value)
+    context["tagged_by_inner"] = data[0]
+    return (data, context)
+
+
 def real_analyses():
-    """Inner analyses built from lena's own accumulators (fresh elements at every call)."""
+    """Inner analyses built from lena's own elements (fresh elements at every call); most of them have a
+    pre-element that changes the context of the value in place."""
+    import lena.context
     import lena.flow
     import lena.math
+    import lena.output
     import lena.structures
     import lena.variables as lv
-    num = lambda: lv.Variable("pos", lambda data: data[0])
+    num = lambda **kw: lv.Variable("pos", lambda data: data[0], **kw)
     return {
         "Count": lambda: (lena.flow.Count(),),
         "Variable+Sum": lambda: (num(), lena.math.Sum()),
         "Variable+Mean": lambda: (num(), lena.math.Mean()),
         "Variable+Histogram": lambda: (num(), lena.structures.Histogram([0, 2, 4, 9])),
+        "typed Variable+Sum": lambda: (num(type="value", unit="m"), lena.math.Sum()),
+        "callable writing into the context+Count": lambda: (tag_inner, lena.flow.Count()),
+        "UpdateContext+Count": lambda: (lena.context.UpdateContext("inner.seen", "by_inner_element"), lena.flow.Count()),
+        "MakeFilename+Count": lambda: (lena.output.MakeFilename("inner_{{src}}", dirname="cells"), lena.flow.Count()),
     }
 
 
@@ -209,7 +253,7 @@ def second_oracle(ctx, rec, worst):
     size = (len(rec["flow"]), len(core.canon(rec["edges"])), core.canon([rec["edges"], rec["flow"]]))
     for name, mk in sorted(real_analyses().items()):
         base = {"scenario": bl.scen_text(dict(rec, kind=name)), "where": "private copy of the real analysis"}
-        av = bl.arg_var(1) if dim == 1 else bl.arg_var2(0)
+        av = bl.arg_var(1, typed=name.startswith("typed")) if dim == 1 else bl.arg_var2(0)
         values = bl.make_values(rec["flow"], dim, False)
         exp, exp_exc = {}, None
         for idx in cells:
@@ -240,6 +284,24 @@ def second_oracle(ctx, rec, worst):
         if len(out) != nexp:
             worst.add("real analysis: number of histograms", size, dict(base, expected=nexp, observed=len(out)))
             continue
+        # histogram context: the last inside value's context as it arrived + variable of the argument
+        # variable - nothing the inner elements wrote (last is the specification's)
+        arrived = {"src": rec["last"]} if (rec["last"] and rec["flow"][rec["last"] - 1]["h"]) else {}
+        want = dict(arrived, variable=av.var_context)
+        for k, (hist, context) in enumerate(out):
+            if context != want:
+                kind = ("context.variable does not describe the argument variable"
+                        if context.get("variable") != av.var_context else
+                        "histogram context is not the last filled value's context + variable")
+                worst.add(kind, size, dict(base, histogram=k, expected=repr(want), observed=repr(context)))
+        # SplitIntoBins itself writes nothing into the flow values (the argument variable's description
+        # in particular stays out of them)
+        for i, v in enumerate(values):
+            if isinstance(v, tuple) and len(v) == 2 and isinstance(v[1], dict):
+                vc = v[1]
+                if vc.get("src") != i + 1 or (vc.get("variable") is not None and vc["variable"].get("name") in ("x", "xy")):
+                    worst.add("SplitIntoBins changes the context of a flow value", size,
+                              dict(base, position=i + 1, observed=repr(vc)))
         for k, (hist, context) in enumerate(out):
             for idx in cells:
                 got = bl.md_get(hist.bins, idx)
@@ -303,6 +365,12 @@ def record_runs(ctx, rnd, n, worst):
                 sib.fill(v)
             out = list(sib.compute())
             rec["hists"] = [bl.md_map(bl.enc_result, h.bins, dim) for h, _ in out]
+            hc = out[0][1] if out else {}
+            rec["hctx"] = {"src": hc.get("src", 0), "mut": hc.get("mut", 0)}
+            rec["vctx"] = [{"src": v[1].get("src", 0), "mut": v[1].get("mut", 0)} if h else {"src": 0, "mut": 0}
+                           for v, h in zip(values, hs)]
+            if out and hc.get("variable") != av.var_context:
+                raise ValueError("context.variable %r" % (hc.get("variable"),))
             rec["iter"] = []
             if out:
                 maps = [{x: i for i, x in enumerate(sorted(set(list(e) + [c[d] for c in coords])))}
@@ -371,7 +439,7 @@ def run(ctx):
                 return r2
         return None
     demo = [{"edges": r["edges"], "kind": r["kind"], "flow": r["flow"], "hists": r["hists"],
-             "iter": [c["e"] for c in r["iter"]]} for r in recs[-80:]]
+             "iter": [c["e"] for c in r["iter"]], "hctx": r["hctx"], "vctx": r["vctx"]} for r in recs[-80:]]
     ctx.binding_demo("Trace_SplitIntoBins", "Trace_SplitIntoBins.cfg", demo, corrupt, limit=80)
     return ctx.finish(
         rule="S2C: every scenario of the bounded model (1-d edges with 1-3 cells, 2-d 2x2 / 2x1 / 1x3; flows with "
